@@ -814,6 +814,59 @@ def r_scoring(ctx, tv, rule='S8-SCORE'):
     ctx.check(oke, 'S12-EMPTY', f.path + '/empty-index', f.loc(), 'an empty index returns Ok(empty) without traversing', 'an empty index is no longer answered with an empty result')
 
 
+def r_result_untouched(ctx, rule='S11-ENTRY'):
+    """the public query entry points hand the traversal's result to the caller as it is: the (id, distance) pairs are not
+    edited on the way out (no mutable borrow, no element store, no call other than the Result / Option plumbing)"""
+    F = ctx.F
+    tvs = traversal(F)
+    if len(tvs) != 1:
+        return
+    tpath = tvs[0].path
+    n = 0
+    for f in F.lib_fns():
+        if not f.path.startswith('reader::QueryBuilder'):
+            continue
+        for c in f.calls():
+            if c.callee != tpath:
+                continue
+            n += 1
+            holders = {c.dest['l']}
+            work = [c.dest['l']]
+            bad = None
+            PLUMBING = ('Try::branch', 'FromResidual::from_residual', 'Result::<T, E>::map', 'Option::<T>::map', 'From::from', 'Into::into', 'Option::<T>::Some',
+                        'Result::<T, E>::map_err', 'Result::<T, E>::and_then', 'Option::<T>::and_then', 'Result::<T, E>::transpose', 'Option::<T>::transpose', 'Result::<T, E>::Ok')
+            while work and bad is None:
+                l = work.pop()
+                for u in f.uses(l):
+                    if u['k'] == 'drop' or u['k'] == 'switch':
+                        continue
+                    if u['k'] == 'rv':
+                        rk = u['rk']
+                        if rk == 'ref' and u['rv'].get('mut'):
+                            bad = 'mutably borrowed'
+                        elif rk in ('use', 'agg', 'discr', 'cast') or (rk == 'ref' and not u['rv'].get('mut')):
+                            dl = u['dest']['l']
+                            if rk != 'discr' and dl not in holders and dl != 0:
+                                holders.add(dl)
+                                work.append(dl)
+                        else:
+                            bad = 'used by `%s`' % rk
+                    elif u['k'] == 'arg':
+                        cal = u['call'].callee
+                        if cal.endswith(PLUMBING):
+                            dl = u['call'].dest['l']
+                            if dl not in holders and dl != 0:
+                                holders.add(dl)
+                                work.append(dl)
+                        else:
+                            bad = 'passed to `%s`' % short(cal)
+                    elif u['k'] == 'store-through':
+                        bad = 'written through'
+            ctx.check(bad is None, rule, '%s/result-untouched#%d' % (f.path, n), c.loc(), 'the traversal result is returned unmodified',
+                      '`%s` edits the result of the traversal before returning it (%s): the (id, distance) pairs the caller sees are no longer the computed ones' % (f.path, bad))
+    ctx.floor(rule, 'calls of the traversal from the query builder', n, 2)
+
+
 def r_entry_points(ctx, rule='S11-ENTRY'):
     F = ctx.F
     tvs = traversal(F)
@@ -821,6 +874,7 @@ def r_entry_points(ctx, rule='S11-ENTRY'):
     bv = F.one("reader::QueryBuilder::<'a, D>::by_vector")
     if not ctx.need(bi is not None and bv is not None and len(tvs) == 1, rule, 'by_item / by_vector / one traversal function'):
         return
+    r_result_untouched(ctx, rule)
     t = tvs[0]
     ci = [c for g in F.family(bi) for c in g.calls() if c.callee == t.path]
     cv = [c for g in F.family(bv) for c in g.calls() if c.callee == t.path]
